@@ -204,7 +204,13 @@ def check_case(case):
     coef = W[:p]
     b = W[p] if fi else (0. if W.ndim == 1 else np.zeros(W.shape[1]))
     pen_idx = np.setdiff1d(np.arange(p), unpen)
-    nz = np.any(coef[pen_idx] != 0)
+    if fi or len(unpen):
+        # with an unpenalised part the cold start is not the null model: penalised coefficients can become non-zero
+        # transiently and are driven back to 0 geometrically; a run stopped at tol may keep entries of the size of
+        # the tolerance (float boundary, see DESIGN 3/C16). Fully penalised problems must return exact zeros.
+        nz = np.any(np.abs(coef[pen_idx]) > 1e3 * tol)
+    else:
+        nz = np.any(coef[pen_idx] != 0)
     if case["side"] == "above":
         if nz:
             j = int(pen_idx[np.argmax(np.abs(coef[pen_idx]).reshape(len(pen_idx), -1).max(1))])
